@@ -4,4 +4,4 @@ From PV Require Import Lib.Bytes Gen.CondSimpSets Spec.BmakeCond Model.CondSimp.
    walk), the spec's reader and evaluator (parse_cond, eval_text), and the
    pieces the harness uses to test the mayMatchNumber assumption (str_match,
    try_parse_number, num_is_zero) *)
-Extraction "C14_model.ml" check_line eval_text parse_cond str_match try_parse_number num_is_zero.
+Extraction "C14_model.ml" check_line eval_text eval_text_env expand_pat env_of parse_cond str_match try_parse_number num_is_zero.
